@@ -7,7 +7,7 @@ from spec import step_model as M
 
 PROPERTY = "C03"
 BOUNDS = {
-    "quick": "(ii) well-formed lines: node sym [10,99] (known or unknown node, sleeping or not), child sym [10,99] or 255 (known or unknown child), all 5 commands, internal/stream type sym [-2,99999] with payload '1', internal types {battery, version, heartbeat, sketch name} x a 24-text payload class list (numbers, non-numbers, version texts, empty, huge), set/req/presentation type sym [0,9] with symbolic |p|<=1; version known (5 versions) or unknown; (i) malformed lines: field count sym [0,8], one numeric position replaced by one of 10 class texts or an out-of-range integer; after every error the same gateway handles '0;255;3;0;9;x' normally; (iv) StreamTransport.read: byte strings over 23 UTF-8 class representatives |b|<=2 and over an 8-byte alphabet |b|<=3 through a duck-typed reader (decode totality; CrossHair cannot keep bytes symbolic through decode, so these are enumerated), and the real asyncio.StreamReader over the alphabet {0a,0d,3b,41,80,c3,a9,ff} |b|<=3 with/without EOF",
+    "quick": "(ii) well-formed lines: node sym [10,99] (known or unknown node, sleeping or not), child sym [10,99] or 255 (known or unknown child), all 5 commands, internal/stream type sym [-2,99999] with payload '1', internal types {battery, version, heartbeat, sketch name} x a 24-text payload class list (numbers, non-numbers, version texts, empty, huge), set/req/presentation type sym [0,9] with symbolic |p|<=1; version known (5 versions) or unknown; (i) malformed lines: field count sym [0,8], one numeric position replaced by one of 10 class texts or an out-of-range integer; after every error the same gateway handles '0;255;3;0;9;x' normally; (v) a Gateway on a real StreamTransport: set with payload bytes over {3b,41,80,c3,a9,ff} |b|<=2, then a req that echoes the stored value through the encoding writer; (iv) StreamTransport.read: byte strings over 23 UTF-8 class representatives |b|<=2 and over an 8-byte alphabet |b|<=3 through a duck-typed reader (decode totality; CrossHair cannot keep bytes symbolic through decode, so these are enumerated), and the real asyncio.StreamReader over the alphabet {0a,0d,3b,41,80,c3,a9,ff} |b|<=3 with/without EOF",
     "thorough": "as quick with ids sym [0,255], |b|<=4, plus a non-deciding hunt: raw symbolic line |line|<=6 (300 s)",
 }
 REALISED = ["byte strings for decode totality are enumerated over class alphabets", "payload class list for internal messages (float(), int(), AwesomeVersion are executed on concrete texts)", "bytes fed to the real StreamReader are realised at bytearray.extend"]
@@ -45,6 +45,7 @@ def partitions(tier):
     parts.append({"name": "decode-duck-small", "fn": "sym_decode", "alphabet": "small", "maxlen": 3 if q else 4, "budget": 500 if q else 3000, "cost": 5})
     for eof in (0, 1):
         parts.append({"name": "streamreader-eof%d" % eof, "fn": "sym_streamreader", "maxlen": 3 if q else 4, "eof": eof, "budget": 500 if q else 3000, "cost": 5})
+    parts.append({"name": "stream-gateway", "fn": "sym_stream_gateway", "maxlen": 2 if q else 3, "budget": 500 if q else 2000, "cost": 4})
     if not q:
         parts.append({"name": "hunt-rawline", "fn": "sym_rawline", "maxlen": 6, "budget": 300, "deciding": False, "cost": 5})
     return parts
@@ -221,6 +222,58 @@ def sym_streamreader(inp, part):
         loop.close()
     tag = "stream-line" if "line" in outs else (outs[0] if outs else "stream-empty")
     return [tag, outs]
+
+
+def sym_stream_gateway(inp, part):
+    """A Gateway on a real StreamTransport (real StreamReader, writer that really encodes): a set whose
+    payload carries arbitrary bytes, then a req that makes the controller echo the stored value.  Every
+    listen step must yield or raise a library error - also when the echo is written."""
+    import asyncio
+
+    from aiomysensors.exceptions import AIOMySensorsError
+    from aiomysensors.gateway import Gateway
+    from aiomysensors.model.node import Node
+
+    from harness.c16_lifecycle import FakeWriter
+    from sx import vloop
+
+    k = inp.pick("len", part["maxlen"] + 1)
+    payload = bytes(ALPHABET[2:][inp.pick("b%d" % i, len(ALPHABET) - 2)] for i in range(k))
+    data = b"1;1;1;0;2;" + payload + b"\n" + b"1;1;2;0;2;\n" + PROBE.encode()
+    outs = []
+
+    async def main():
+        tr = _transport()
+        tr.reader = asyncio.StreamReader()
+        tr.writer = FakeWriter()
+        tr.reader.feed_data(data)
+        tr.reader.feed_eof()
+        gw = Gateway(tr)
+        gw.protocol_version = "2.2"
+        nd = Node(1, 17, "2.2")
+        nd.add_child(1, 6)
+        gw.nodes[1] = nd
+        for _ in range(3):
+            agen = gw.listen()
+            try:
+                m = await anext(agen)
+                outs.append("msg")
+            except AIOMySensorsError as e:
+                outs.append("lib:" + type(e).__name__)
+            except (Reject, Violation):
+                raise
+            except Exception as e:  # noqa: BLE001
+                raise Violation("foreign-exception:%s" % type(e).__name__, "stream %r: listen step %d raised %s: %s" % (data, len(outs), type(e).__name__, str(e)[:150]))
+            finally:
+                await agen.aclose()
+
+    try:
+        vloop.run(main)
+    except vloop.Deadlock as e:
+        raise Violation("deadlock", str(e))
+    if outs[-1] != "msg":
+        raise Violation("unusable-after-error", "stream %r: the final well-formed line gave %r" % (data, outs))
+    return [outs[0], outs]
 
 
 def sym_rawline(inp, part):
